@@ -513,4 +513,115 @@ theorem compact_bad_head (id : Nat) (l : List Nat) (hd : deserialize id = .err .
   have h : canonId id = .err .badOrigin := by unfold canonId; rewrite [hd]; simp only [Outcome.bind_err]
   rewrite [compact_unfold, mapOutcome_cons, h]; simp only [Outcome.bind_err]
 
+/-! ### rejected inputs stay rejected: an `ok` result means every input decoded -/
+
+theorem mapOutcome_ok_all {α β} (f : α → Outcome β) : ∀ (l : List α) (ys : List β),
+    mapOutcome f l = .ok ys → ∀ a ∈ l, ∃ b, f a = .ok b := by
+  intro l
+  induction l with
+  | nil => intro ys _ a ha; cases ha
+  | cons x xs ih =>
+    intro ys h a ha
+    rewrite [mapOutcome_cons] at h
+    obtain ⟨b, hb, h⟩ := Outcome.bind_eq_ok _ _ _ h
+    obtain ⟨bs, hbs, _⟩ := Outcome.bind_eq_ok _ _ _ h
+    rcases List.mem_cons.mp ha with rfl | ha
+    · exact ⟨b, hb⟩
+    · exact ih bs hbs a ha
+
+theorem flatMapOutcome_ok_all {α β} (f : α → Outcome (List β)) : ∀ (l : List α) (ys : List β),
+    flatMapOutcome f l = .ok ys → ∀ a ∈ l, ∃ b, f a = .ok b := by
+  intro l
+  induction l with
+  | nil => intro ys _ a ha; cases ha
+  | cons x xs ih =>
+    intro ys h a ha
+    rewrite [flatMapOutcome_cons] at h
+    obtain ⟨b, hb, h⟩ := Outcome.bind_eq_ok _ _ _ h
+    obtain ⟨bs, hbs, _⟩ := Outcome.bind_eq_ok _ _ _ h
+    rcases List.mem_cons.mp ha with rfl | ha
+    · exact ⟨b, hb⟩
+    · exact ih bs hbs a ha
+
+theorem compact_ok_decodes (cells out : List Nat) (h : compact cells = .ok out) :
+    ∀ c ∈ cells, ∃ cell, deserialize c = .ok cell := by
+  intro c hc
+  cases cells with
+  | nil => cases hc
+  | cons x xs =>
+    rewrite [compact_unfold] at h
+    obtain ⟨canon, hm, _⟩ := Outcome.bind_eq_ok _ _ _ h
+    obtain ⟨b, hb⟩ := mapOutcome_ok_all canonId _ _ hm c hc
+    rcases canonId_cases c with ⟨cell, hd, _, _⟩ | ⟨_, he⟩
+    · exact ⟨cell, hd⟩
+    · rewrite [he] at hb; cases hb
+
+theorem uncompact_ok_decodes (cells : List Nat) (R : Int) (ys : List Nat) (h : uncompact cells R = .ok ys) :
+    ∀ c ∈ cells, (∃ cell, deserialize c = .ok cell) ∧ getResolution c ≤ R := by
+  intro c hc
+  have hR := (uncompact_valid cells R ys h).2
+  rewrite [uncompact_unfold cells R hR] at h
+  obtain ⟨n, _, h⟩ := Outcome.bind_eq_ok _ _ _ h
+  split at h
+  · cases h
+  · obtain ⟨b, hb⟩ := flatMapOutcome_ok_all _ _ _ h c hc
+    unfold uncompactStep at hb
+    obtain ⟨k, hk, hb⟩ := Outcome.bind_eq_ok _ _ _ hb
+    rcases deserialize_cases c with ⟨cell, hd⟩ | hd
+    · refine ⟨⟨cell, hd⟩, ?_⟩
+      have hres := deserialize_res c cell hd
+      apply Classical.byContradiction
+      intro hgt
+      have hk0 : getNumChildren (getResolution c) R = .ok 0 := by
+        unfold getNumChildren; rewrite [if_pos (by omega)]; rfl
+      rewrite [hk0] at hk
+      cases Outcome.ok.inj hk
+      rewrite [if_neg (by omega), cellToChildren_coarser c cell R hd (by omega)] at hb
+      cases hb
+    · rewrite [cellToParent_err c _ _ hd, cellToChildren_err c _ _ hd] at hb
+      simp only [Outcome.bind_err] at hb
+      split at hb <;> cases hb
+
+/-! ### `getNumCells`, `getRes0Cells`, the world cell -/
+
+theorem lookup_mem {α : Type} (k : Int) (v : α) : ∀ l : List (Int × α), l.lookup k = some v → (k, v) ∈ l := by
+  intro l
+  induction l with
+  | nil => intro h; cases h
+  | cons p ps ih =>
+    intro h
+    obtain ⟨k', v'⟩ := p
+    simp only [List.lookup] at h
+    split at h
+    · rename_i heq
+      have hk : k = k' := by simpa using heq
+      cases Option.some.inj h
+      subst hk
+      exact List.mem_cons_self
+    · exact List.mem_cons_of_mem _ (ih h)
+
+/-- `get_num_cells` is a total function into `u64` for every integer argument (saturating) -/
+theorem getNumCells_lt (r : Int) : getNumCells r < 2 ^ 64 := by
+  unfold getNumCells
+  split
+  · omega
+  · split
+    · rename_i n hn
+      have hm := lookup_mem r n _ hn
+      simp only [Gen.NUM_CELLS_SPECIAL, List.mem_cons, List.mem_nil_iff, or_false, Prod.mk.injEq] at hm
+      omega
+    · simp only
+      split
+      · rename_i h; exact h.2
+      · omega
+
+theorem getRes0Cells_eq : getRes0Cells = .ok ((List.range 12).map (fun f => f * 2 ^ 58 + 2 ^ 57)) := by decide
+
+theorem layout_res_neg (x : Nat) (hl : Layout x) (hr : getResolution x = -1) : x = 0 := by
+  rcases hl with rfl | ⟨f, hf, hid⟩ | ⟨t, ht, hid⟩ | ⟨r, t, s, h2, h29, ht, hs, hid⟩
+  · rfl
+  · have := (deserialize_shape0 x f hf hid).1; omega
+  · have := (deserialize_shape1 x t ht hid).1; omega
+  · have := (deserialize_shapeH x r t s h2 h29 ht hs hid).1; omega
+
 end A5
